@@ -698,20 +698,10 @@ func (c *Check) collectRules() {
 	cg := collectionFunction(cgTop)
 	// R4: results appended in index order
 	nApp := 0
-	for _, b := range cg.Blocks {
-		for _, ins := range b.Instrs {
-			call, ok := ins.(*ssa.Call)
-			if !ok {
-				continue
-			}
-			bi, ok := call.Call.Value.(*ssa.Builtin)
-			if !ok || bi.Name() != "append" {
-				continue
-			}
-			elems := variadicValues(call.Call.Args[1])
-			if len(elems) != 1 {
-				continue
-			}
+	for _, hs := range harvestSites(cg) {
+		{
+			call := hs.ins
+			elems := []ssa.Value{hs.val}
 			// sources[i].F read in place (s := &sources[i]; s.F) or from a snapshot (got := sources[i]; got.F)
 			var elemAddr ssa.Value
 			var T, F string
@@ -1125,20 +1115,9 @@ func containsGo(gs []*ssa.Go, g *ssa.Go) bool {
 // parameter to that appends the sources' profiles (the harvesting loop split out).
 func collectionFunction(cg *ssa.Function) *ssa.Function {
 	appendsProfiles := func(f *ssa.Function) bool {
-		for _, b := range f.Blocks {
-			for _, ins := range b.Instrs {
-				call, ok := ins.(*ssa.Call)
-				if !ok {
-					continue
-				}
-				if bi, ok := call.Call.Value.(*ssa.Builtin); !ok || bi.Name() != "append" || len(call.Call.Args) < 2 {
-					continue
-				}
-				for _, v := range variadicValues(call.Call.Args[1]) {
-					if v != nil && isFieldLoad(v, "driver.profileSource", "p") {
-						return true
-					}
-				}
+		for _, hs := range harvestSites(f) {
+			if isFieldLoad(hs.val, "driver.profileSource", "p") {
+				return true
 			}
 		}
 		return false
@@ -1294,4 +1273,77 @@ func (c *Check) chunkTilingByRemainder(f *ssa.Function) bool {
 		c.bad("C16-R6", "tiling:cond", p.relFile(f.Pos()), "chunk loop condition is not \"sources remain\": the last partial chunk could be skipped")
 	}
 	return true
+}
+
+// harvestSite: one place where a fetched result is put into the list that is merged: an
+// append of the value, or a store into the next free slot of a preallocated list (a counter
+// that starts at 0 and grows by one per stored element), which keeps the order as well.
+type harvestSite struct {
+	ins ssa.Instruction
+	val ssa.Value
+}
+
+func harvestSites(f *ssa.Function) []harvestSite {
+	var out []harvestSite
+	for _, b := range f.Blocks {
+		for _, ins := range b.Instrs {
+			switch x := ins.(type) {
+			case *ssa.Call:
+				bi, ok := x.Call.Value.(*ssa.Builtin)
+				if !ok || bi.Name() != "append" || len(x.Call.Args) < 2 {
+					continue
+				}
+				elems := variadicValues(x.Call.Args[1])
+				if len(elems) == 1 && elems[0] != nil {
+					out = append(out, harvestSite{x, elems[0]})
+				}
+			case *ssa.Store:
+				ia, ok := x.Addr.(*ssa.IndexAddr)
+				if !ok {
+					continue
+				}
+				ph, ok := ia.Index.(*ssa.Phi)
+				if !ok {
+					continue
+				}
+				// a fill counter: 0 on entry, and on every other edge itself or itself + 1
+				counter := true
+				for _, e := range ph.Edges {
+					switch {
+					case isConstInt(e, 0):
+					case e == ssa.Value(ph):
+					default:
+						counter = counter && isCounterStep(e, ph, map[ssa.Value]bool{})
+					}
+				}
+				if counter {
+					out = append(out, harvestSite{x, x.Val})
+				}
+			}
+		}
+	}
+	return out
+}
+
+// isCounterStep: v is ph, ph+1, or a phi of such values.
+func isCounterStep(v ssa.Value, ph *ssa.Phi, seen map[ssa.Value]bool) bool {
+	if seen[v] {
+		return true
+	}
+	seen[v] = true
+	if v == ssa.Value(ph) {
+		return true
+	}
+	switch x := v.(type) {
+	case *ssa.BinOp:
+		return x.Op == token.ADD && x.X == ssa.Value(ph) && isConstInt(x.Y, 1)
+	case *ssa.Phi:
+		for _, e := range x.Edges {
+			if !isCounterStep(e, ph, seen) {
+				return false
+			}
+		}
+		return true
+	}
+	return false
 }
